@@ -673,11 +673,13 @@ class MementoFunctionHashRule(HashRule):
             )
 
     def compute_hash(self) -> Optional[str]:
-        return (
-            self.memento_fn.explicit_version
-            if self.memento_fn.explicit_version is not None
-            else self.memento_fn.code_hash
-        )
+        if self.memento_fn.explicit_version is not None:
+            # Rule hashes are concatenated to form the version of the dependent function, so
+            # each must have a fixed width: "1" + "23" and "12" + "3" would otherwise collide.
+            return hashlib.sha256(
+                self.memento_fn.explicit_version.encode("utf-8")
+            ).hexdigest()[0:16]
+        return self.memento_fn.code_hash
 
     def did_change(self) -> bool:
         # Changes to the definition of a MementoFunctionType are more robust and detected using a
